@@ -622,7 +622,7 @@ static int primal_col_select (
 				else
 				{
 					QSlog("Error: Not enough artificials");
-					return -1;
+					{ EGLPNUM_TYPENAME_EGlpNumClearVar (alpha); EGLPNUM_TYPENAME_EGlpNumClearVar (val); EGLPNUM_TYPENAME_EGlpNumClearVar (maxelem); return -1; }
 				}
 			}
 		}
@@ -708,7 +708,7 @@ static int get_initial_basis1 (
 				else
 				{
 					QSlog("Error: Not enough artificials");
-					return -1;
+					{ EGLPNUM_TYPENAME_EGlpNumClearVar (cmax); return -1; }
 				}
 			}
 		}
